@@ -54,6 +54,39 @@ PROPS = {
                      "effectiveness theorems (token_shared/node_shared) are stated for an immediately repeated request; stability of node entries under *other* requests is tied by correspondence (ghost ids vs addresses), not yet proved"],
         not_yet_proved=["node_entry_stable: a node-cache entry keeps answering its query after arbitrary other insertions (needs symmetry/transitivity of structural equality)"],
     ),
+    "C05": dict(
+        extra_modules=["CstModel.Proofs.Conc"],
+        tags=["C05", "C06"],
+        runs=runs([("conc:traverse", "release")],
+                  [("conc:traverse", "release"), ("conc:traverse", "debug"), ("conc:lifecycle", "release")]),
+        rule="cases = executions of the real crate under the harness' deterministic scheduler (one thread runs at a time, from one hook point -- a slot/data "
+             "lock acquisition or a read-modify-write of the tree counter -- to the next; a thread whose pending lock is held is not enabled): 8 fixed + 10 "
+             "(thorough 60) random traversal programs of 2-3 threads x 1-3 navigation requests over 3 trees; per program ALL schedules with <= 1 (thorough 2) "
+             "preemptions (stateless DFS) + 30 (thorough 200) random schedules; per execution: every handle any thread obtained is checked against the arena "
+             "reference (kind, range, node/token, parent chain), Eq/Hash identity must be a bijection with tree positions across threads and routes, lock-set "
+             "discipline of every slot access, no panic; then the event trace (rdhit/rdmiss/install/lose/add/reread/inc/dec with the counter value after every "
+             "RMW) is replayed through the Lean model `Conc.step`, which must accept every event and predict every counter value; non-trivial = the scheduler "
+             "had a real choice in the execution; distinct = distinct event trace",
+        assumptions=["the model's atomic steps are the hook points: code between two points runs without interference from participating threads (true under the "
+                     "scheduler; on real hardware it relies on the locks and on data-race freedom, which is C07's subject)",
+                     "parking_lot::RwLock is a correct reader/writer lock"],
+        not_yet_proved=["refinement from the slot protocol to the sequential Red model (a slot, once written, holds the element `Red.getOrAdd` would create): tied by the arena oracle on every execution, not by a theorem"],
+    ),
+    "C06": dict(
+        extra_modules=["CstModel.Proofs.Conc"],
+        runs=runs([("conc:lifecycle", "release"), ("conc:traverse", "release")],
+                  [("conc:lifecycle", "release"), ("conc:lifecycle", "debug"), ("conc:traverse", "release"), ("conc:data", "release")]),
+        rule="cases = executions under the deterministic scheduler of 8 fixed + 10 (thorough 60) random clone/drop/traverse/send programs over 1-3 threads (handles "
+             "to inner nodes and tokens outliving the root handle, the last drop on any thread incl. the main thread first or last, creation races whose loser "
+             "is discarded); all schedules with <= 1 (thorough 2) preemptions + random schedules; instrumentation oracle per execution: every NodeData block and "
+             "the count cell are freed exactly once, never accessed after being freed, nothing stays live after the last handle is gone, and nothing is freed "
+             "before; the event trace with the counter value after every RMW and the number of blocks freed by the teardown is replayed through the Lean model, "
+             "which must accept every event (a teardown event is only enabled when no handle is owned or owed); non-trivial = the scheduler had a real choice",
+        assumptions=["the green tree, resolver and per-node data are owned by red blocks (plain Rust ownership): their release is implied by the block being dropped exactly once",
+                     "counter arithmetic is modelled on Int without wrap-around; the u32 counter wrapping at 2^32 clones is outside the property's histories"],
+        not_yet_proved=["blocks_freed_once as a theorem about the recursive teardown (the model's teardown is one atomic step that frees all installed blocks; the per-block "
+                        "exactly-once is checked by the instrumentation oracle)"],
+    ),
     "C08": dict(
         runs=runs([("probe:c08", "rustc")], [("probe:c08", "rustc")]),
         rule="cases = one rustc probe each (all in one crate compiled once against the current source; diagnostics mapped back by line): every handle type "
